@@ -4,7 +4,8 @@
    rejected at the first event that is not a behaviour of the specification:
      done      with outcome recursion / busy / timeout, or more steps than StepBudget
      alive     FALSE although no injected unit was a valid disconnect of the link
-     reopen    FALSE (the ordinary procedure to open the channel again failed)
+     reopen    FALSE (the ordinary procedure to open the channel again failed); a reopen of a channel the victim left
+               open after units that all ended on a unit boundary (the reference request is owed on the same channel)
      probe     while a transaction the peer started (inject with txn = TRUE) has not been abandoned
      probe_ok  FALSE (reference request unanswered or answered wrongly)
    A batch file holds many traces; tid picks one.  Every record has all fields.          *)
@@ -47,7 +48,7 @@ TraceInit == /\ tid \in 1..Len(Traces)
              /\ ch = Traces[tid][1].ch
              /\ ch \in Channels
              /\ hist = <<>> /\ phase = "idle" /\ cur = [cls |-> "", disc |-> "none"]
-             /\ connUp = TRUE /\ chanUp = TRUE /\ mid = FALSE /\ lost = FALSE /\ discs = {} /\ txn = FALSE
+             /\ connUp = TRUE /\ chanUp = TRUE /\ mid = FALSE /\ lost = FALSE /\ discs = {} /\ txn = FALSE /\ moved = FALSE
 TraceNext == Step \/ Done_ \/ Stuck
 TraceSpec == TraceInit /\ [][TraceNext]_tvars
 =============================================================================
